@@ -57,6 +57,11 @@ class MapVal:
         return [self.d[k] for k in ks]
 
 
+class SetVal(MapVal):
+    """IndexSet / BTreeSet / HashSet: a MapVal whose values are unit; iteration yields the keys."""
+    __slots__ = ()
+
+
 class WindowsIter:
     __slots__ = ("s", "n", "i")
 
@@ -115,6 +120,13 @@ class TakeN:
 
     def __init__(self, it, n):
         self.it, self.n = it, n
+
+
+class ChainIter:
+    __slots__ = ("a", "b")
+
+    def __init__(self, a, b):
+        self.a, self.b = a, b
 
 
 class RevSliceIter:
@@ -252,6 +264,13 @@ def iter_next(I, it, depth):
             return NONE()
         it.n -= 1
         return iter_next(I, it.it, depth)
+    if isinstance(it, ChainIter):
+        if it.a is not None:
+            r = iter_next(I, it.a, depth)
+            if r.vi == 1:
+                return r
+            it.a = None
+        return iter_next(I, it.b, depth)
     if isinstance(it, RevSliceIter):
         if it.i <= 0:
             return NONE()
@@ -596,6 +615,10 @@ def call(I, fr, name, fname, k, args, depth):
         v = args[0]
         if isinstance(v, Slice):
             return SliceIter(v)
+        if isinstance(v, SetVal):
+            return ValIter([k0 for k0, _v0 in v.items()])
+        if isinstance(v, Ref) and isinstance(I.read_path(v.frame, v.local, v.path), SetVal):
+            return ValIter([tmp_ref(k0) for k0, _v0 in I.read_path(v.frame, v.local, v.path).items()])
         if isinstance(v, MapVal):
             return ValIter([[k0, v0] for k0, v0 in v.items()])
         if isinstance(v, Ref):
@@ -611,6 +634,13 @@ def call(I, fr, name, fname, k, args, depth):
         return v
     if name.endswith("Iterator>::next") or name.endswith("Iterator::next") or (name.endswith("::next") and ("Range" in name or "slice::" in name or "Enumerate" in name)):
         return iter_next(I, args[0], depth)
+    if name.endswith("DoubleEndedIterator>::next_back") or name.endswith("DoubleEndedIterator::next_back"):
+        it_ = deref(I, args[0]) if isinstance(args[0], Ref) else args[0]
+        if isinstance(it_, ValIter):
+            if it_.i >= len(it_.v):
+                return NONE()
+            return some(it_.v.pop())
+        raise Unsupported("next_back on %r" % (it_,))
     if name.endswith("Iterator::enumerate"):
         return EnumIter(_hold(args[0]))
     if name.endswith("Iterator::collect") or name.endswith("Iterator>::collect"):
@@ -1116,6 +1146,33 @@ def call(I, fr, name, fname, k, args, depth):
         if cell.fields[0].vi == 0:
             cell.fields[0] = some(call_closure(I, args[1], [], depth))
         return Ref(r.frame, r.local, list(r.path) + [("f", 0), ("f", 0)])
+    if ("indexmap::IndexSet::<" in name or "indexmap::set::IndexSet::<" in name or "collections::BTreeSet::<" in name or "btree::set::BTreeSet::<" in name or "collections::HashSet::<" in name or "hash::set::HashSet::<" in name) and "::" in name:
+        from .minimir import freeze as _fz
+
+        meth = name.rsplit("::", 1)[-1]
+        if meth in ("new", "with_capacity", "default"):
+            return SetVal("BTreeSet" in name)
+        st_ = deref(I, args[0])
+        if not isinstance(st_, SetVal):
+            raise Unsupported("set method %s on %r" % (name, st_))
+        if meth == "insert":
+            kv_ = deref(I, args[1])
+            kz = _fz(kv_)
+            if st_.sorted and not (isinstance(kv_, int) or (isinstance(kz, tuple) and len(kz) == 2 and kz[0] == "slice")):
+                raise Unsupported("BTreeSet of %r: the order is the element type's Ord, not modelled" % (kv_,))
+            if kz in st_.d:
+                return 0
+            st_.d[kz] = [args[1], []]
+            return 1
+        if meth == "contains":
+            return int(_fz(deref(I, args[1])) in st_.d)
+        if meth == "len":
+            return len(st_.d)
+        if meth == "is_empty":
+            return int(not st_.d)
+        if meth == "iter":
+            return ValIter([tmp_ref(k0) for k0, _v0 in st_.items()])
+        raise Unsupported("set method %s" % name)
     if ("collections::BTreeMap" in name or "collections::HashMap" in name or "btree::map::BTreeMap" in name or "hash::map::HashMap" in name or "indexmap::IndexMap" in name or "indexmap::map::IndexMap" in name) and "::" in name:
         from .minimir import freeze as _fz
 
@@ -1764,6 +1821,32 @@ def call(I, fr, name, fname, k, args, depth):
         return err(i)
     if name.endswith("Iterator::take") or name.endswith("Iterator>::take"):
         return TakeN(_hold(args[0]), args[1])
+    if name.endswith("Iterator::chain") or name.endswith("Iterator>::chain"):
+        o_ = args[1]
+        if isinstance(o_, list):
+            o_ = ValIter(list(o_))
+        elif isinstance(o_, Slice):
+            o_ = SliceIter(o_)
+        elif isinstance(o_, Adt) and o_.path.endswith("option::Option"):
+            o_ = ValIter([o_.fields[0]] if o_.vi == 1 else [])
+        elif isinstance(o_, (MapVal, Ref, StrBuf)):
+            raise Unsupported("Iterator::chain with %r" % (o_,))
+        return ChainIter(_hold(args[0]), _hold(o_))
+    if name.endswith("i64::wrapping_rem") or name.endswith("i32::wrapping_rem"):
+        a_, b_ = args[0], args[1]
+        if b_ == 0:
+            raise Panic("attempt to calculate the remainder with a divisor of zero")
+        if b_ == -1:
+            return 0
+        r_ = abs(a_) % abs(b_)
+        return -r_ if a_ < 0 else r_
+    if name.endswith("char::methods::<impl char>::to_digit"):
+        c_, radix_ = args[0], args[1]
+        if radix_ < 2 or radix_ > 36:
+            raise Panic("to_digit: invalid radix")
+        ch_ = chr(c_) if c_ < 0x110000 else ""
+        d_ = int(ch_, 36) if (len(ch_) == 1 and ch_.isascii() and ch_.isalnum()) else 99
+        return some(d_) if d_ < radix_ else NONE()
     if name.endswith("Iterator::rev") or name.endswith("DoubleEndedIterator>::rev") or name.endswith("Iterator>::rev"):
         it = args[0]
         if isinstance(it, RangeIter):
@@ -2446,6 +2529,14 @@ def call(I, fr, name, fname, k, args, depth):
             return wrap(a >> (args[1] % bits), ty)
         if meth == "wrapping_neg":
             return wrap(-a, ty)
+        if meth in ("wrapping_rem", "wrapping_div"):
+            b_ = args[1]
+            if b_ == 0:
+                raise Panic("attempt to divide / take the remainder with a divisor of zero")
+            q_ = abs(a) // abs(b_)
+            if (a < 0) != (b_ < 0):
+                q_ = -q_
+            return wrap(q_, ty) if meth == "wrapping_div" else wrap(a - q_ * b_, ty)
         if meth == "saturating_sub":
             lo = -(1 << (bits - 1)) if signed else 0
             return max(a - args[1], lo)
